@@ -1,7 +1,15 @@
 import FixModel.Sched.ConnSkeleton
 import FixModel.Generated.Facts
 /-!
-# the connection models' tie to the source (T-gen), shared by C04 C13 C19 C20
+# the connection models' tie to the source (T-gen), an obligation of C04 C13 C19
+
+Every exported function of the root package the connection models were written against is still there with exactly
+the same skeleton (the same operations in the same order: these models are about order — close before wait, handlers
+before serialization, …). Exported functions the models do not know are not compared.
 -/
 
-theorem conn_skeleton : Generated.connSkeleton = ConnSkeleton.expected := by decide +kernel
+theorem conn_skeleton :
+    ConnSkeleton.expected.all (fun r => Generated.connSkeleton.lookup r.1 == some r.2) = true := by decide +kernel
+
+-- non-vacuity: the expectation is not empty and is found
+example : ConnSkeleton.expected.length > 10 := by decide
